@@ -4,6 +4,16 @@ from . import classlaws
 
 def build(repo, tier, seed):
     b = classlaws.bundle(repo, tier, seed, ("L1", "L2", "L5", "L6v", "L10"), classes=["_DatasetClassMeta"], bounded=False)
+    from . import datasetclass_c19
+    from .common import fn_hashes
+    v1, syn1, und1 = datasetclass_c19.build(repo)
+    b["vcs"] += v1
+    b["syntactic"] += syn1
+    b["undecided"] += und1
+    fns, hs = fn_hashes(repo, ["labrea.datasetclass:_DatasetClassMixin.__init__", "labrea.datasetclass:_DatasetClassMixin.__eq__", "labrea.datasetclass:_DatasetClassMixin.__repr__"])
+    b["functions"] += fns
+    b["hashes"].update(hs)
+    b["group_hashes"]["DatasetClass:instance"] = hs
     from harness import datasetclass_search
     wit, n = datasetclass_search.search(seed)
     b["bounded"] = [{"what": "instantiation sets every evaluatable member to its evaluation and every plain member to its constant (incl. inherited members, parent used before child and vice versa); "
@@ -17,6 +27,8 @@ def build(repo, tier, seed):
     b["witness"] = witness
     b["assumptions"] += ["proved for the metaclass (_DatasetClassMeta) from its real keys/validate/explain bodies over dir(cls) (symbolic member table, any number of members): keys are "
                          "present-only and restriction-stable, explain covers keys and names missing options, inspection writes nothing (no caching of member lists on the class) and runs no body",
-                         "bounded only: _DatasetClassMixin.__init__ (member evaluation + _repr_options construction mutates a dictionary inside a loop: outside the verifier's subset), __eq__, __repr__, "
-                         "the metaclass __init__ (annotation wrapping) and datasetclass()"]
+                         "proved for instances (group DatasetClass:instance): the real _DatasetClassMixin.__init__, for an instance of an arbitrary dataset class, replaces exactly the evaluatable non-dunder members by "
+                         "their evaluation under the given options (events of every iteration), stores nothing else, leaves _repr_options = restrict(options, keys the class reports) - through the loop contract "
+                         "contracts/loop_restrict.py (OptTheory.restrict.def) - and fails only as a member's evaluation or the class's keys() fails; __eq__ compares class and those restricted options, __repr__ shows them (AST obligations)",
+                         "bounded only: inherited members / MRO order of dir() (dep.dir), the metaclass __init__ (annotation wrapping) and datasetclass()"]
     return b
